@@ -644,6 +644,9 @@ class RecordingStream(io.TextIOBase):
         super().__init__()
         self.sim = sim
         self.chunks = 0
+        self.fail_from = None     # the k-th write (1-based) and all later
+        #                           ones raise (a closed pipe stays closed)
+        self.failed = 0
 
     def writable(self):
         return True
@@ -651,6 +654,11 @@ class RecordingStream(io.TextIOBase):
     def write(self, s):
         sim = self.sim
         self.chunks += 1
+        if self.fail_from is not None and sim.active and \
+                self.chunks >= self.fail_from:
+            self.failed += 1
+            sim.ev("write-error", sim.current)
+            raise BrokenPipeError(32, "Broken pipe (injected)")
         sim.writes_total += 1
         if sim.active:
             sim.ev("write", sim.current, len(s))
